@@ -14,6 +14,25 @@ COMMON = [
 ]
 
 K_PROPS = {
+    "C12": dict(assumptions=COMMON + KERNEL_ASSUMPTIONS + [
+                    "descriptor model: 32-entry table, lowest-free allocation, stdin/stdout/stderr open initially; every descriptor-taking call checks that its descriptor is open",
+                    "fault model: quick = one failing call at a symbolic index with a symbolic errno 1..=4095 (so EAGAIN/EINPROGRESS/EINTR paths are included); thorough adds two failing calls",
+                    "ppoll returns 0 (time-out) or 1 (ready) symbolically; read/write/copy_file_range return any count <= the requested length",
+                    "rusl::unistd::stat_fd is replaced by statat(fd, \"\") because Kani 0.68 cannot encode the `UnixStr::EMPTY` constant it passes"],
+                outside=["openpty, process::Stdio::Null (/dev/null) and unix::random use `const X: &UnixStr` literals that Kani 0.68 cannot encode (constant fat pointer to an unsized newtype) - not covered",
+                         "descriptors inherited across a real exec", "the scenario list is finite and printed in coverage.samples"]),
+    "C08": dict(assumptions=COMMON + [
+                    "the symbols are called through their Rust paths (tiny_start::symbols::mem::*); Kani unwinds the real loops",
+                    "CBMC's pointer-to-integer model: alignment is derived from the offset inside a 16-byte aligned 64-byte buffer",
+                    "oracle: C definition stated at one symbolic index over the whole buffer (inside the range: source/fill byte; outside: unchanged)"],
+                outside=["n above the stated bound (trip count grows with n; the property's sampled sizes up to 1 MiB are not attempted)",
+                         "memmove with both offsets fully free did not finish (25 min) and is split into three overlap cases"]),
+    "C17": dict(assumptions=COMMON + [
+                    "source hook: rusl feature `verif-hooks` (IoUring::verif_from_raw_parts) builds the ring over harness memory; ring logic itself is /repo's unchanged code",
+                    "kernel side modelled in the harness: consumes published entries in order via the index array (identity mapping as setup_io_uring writes it); posts completions only while the CQ has a free slot (ktail-khead < n)",
+                    "start state: arbitrary valid ring state (symbolic 32-bit bases, pending/unflushed/pending-completion counts) — an induction step",
+                    "interleaving at call granularity (sequential), as the property states"],
+                outside=["ring sizes > 8; SQE128/CQE32 strides; more steps than stated; weak-memory reorderings between the two sides"]),
     "C09": dict(assumptions=COMMON + KERNEL_ASSUMPTIONS + [
                     "raw kernel mode: the value returned by each `syscall` instruction is an unconstrained 64-bit variable; memory the "
                     "kernel would fill through pointer arguments is left as the wrapper initialised it",
